@@ -155,7 +155,7 @@ def gen(rs: int, index: int, tier: str) -> Dict[str, Any]:
     w = {k: r.choice([0, 1, 1, 2, 4]) for k in
          ["append", "insert", "extend", "remove", "pop", "clear", "copy", "copycopy", "deepcopy", "pickle",
           "construct", "remove_absent", "pop_bad", "append_nameless", "extend_raise", "insert_nameless",
-          "inspect", "insert_badindex", "item_copy"]}
+          "inspect", "insert_badindex", "item_copy", "pop_badindex"]}
     w["append"] = max(w["append"], 2)
     kinds = [k for k in w if w[k] > 0]
     ops: List[List[Any]] = []
@@ -198,6 +198,8 @@ def gen(rs: int, index: int, tier: str) -> Dict[str, Any]:
             ops.append([li, "insert_badindex", r.choice(["huge", "-huge", "str", "none", "float"]), r.choice(alpha)])
         elif k == "item_copy":
             ops.append([li, "item_copy", r.choice(["deepcopy", "pickle"]), r.randint(0, 9)])
+        elif k == "pop_badindex":
+            ops.append([li, "pop_badindex", r.choice(["name", "name", "str", "none", "float"]), r.randint(0, 9)])
     # now and then: copy / deep-copy / pickle of the name lists of a real database and of single items of them
     rr = S.rng("real")
     if rr.random() < 0.03:
@@ -472,6 +474,21 @@ def execute(trace: Dict[str, Any]) -> Dict[str, Any]:
                     bad: Any = {"huge": 2**70, "-huge": -2**70, "str": "0", "none": None, "float": 1.5}[op[2]]
                     try:
                         nil.insert(bad, mk(op[3]))
+                        raise Violation("failing-op-succeeded", {"op": kind, "index": op[2]})
+                    except Violation:
+                        raise
+                    except Exception as e:  # noqa: BLE001
+                        outcome = type(e).__name__
+                elif kind == "pop_badindex":
+                    # an index that list.pop() itself rejects - in particular the *name* of a present item, which
+                    # __getitem__ accepts: the call fails and must change nothing (seeded change C16-O)
+                    faults["pop_rejected_index"] = faults.get("pop_rejected_index", 0) + 1
+                    badp: Any = {"str": "0", "none": None, "float": 1.5}.get(op[2])
+                    if op[2] == "name":
+                        names = list(nil.keys())
+                        badp = names[op[3] % len(names)] if names else "nosuchname"
+                    try:
+                        nil.pop(badp)
                         raise Violation("failing-op-succeeded", {"op": kind, "index": op[2]})
                     except Violation:
                         raise
